@@ -102,11 +102,21 @@ func refResolve(u *mvssim.Universe, bl map[string]string, p, query string) (ver 
 			v, ok := latest()
 			return v, ok, false
 		}
+		// as for latest, releases come first: a pre-release is chosen only when the current version is one
+		// (otherwise "get p@patch" twice - absent, then present at its latest release - could not be idempotent)
 		mm := semver.MajorMinor(cur)
+		pre := ""
 		for i := len(tags) - 1; i >= 0; i-- {
 			if semver.MajorMinor(tags[i]) == mm && cmp(tags[i], cur) > 0 {
-				return tags[i], true, false
+				if semver.Prerelease(tags[i]) == "" {
+					return tags[i], true, false
+				} else if pre == "" {
+					pre = tags[i]
+				}
 			}
+		}
+		if pre != "" && semver.Prerelease(cur) != "" {
+			return pre, true, false
 		}
 		return cur, true, false
 	case strings.HasPrefix(query, ">="):
